@@ -147,9 +147,24 @@ def c10b(ctx):
     ok = bool(fa) and all(len(x.args) == 3 and same(x.args[0], 'actual_layers') and
                           depends(x.args[2], lambda y: is_call(y, 'self.authorized_layers'), defs) for x in fa)
     ctx.check(ok, 'WMSServer.map:permissions-to-filter', 'filter_actual_layers receives the layers to render and the permissions of authorized_layers()', fn)
-    rl = [v for v, sel in defs.of('render_layers')]
-    ex = [x for x in fn.walk() if is_call(x, 'render_layers.extend')]
-    ok = bool(ex) and all(inside(x, enclosing(x, ast.For)) and same(enclosing(x, ast.For).iter, 'actual_layers.values()') for x in ex)
+    # the list handed to the renderer: filled from actual_layers.values() only -- by extend() in a loop over it, or as the flattening
+    # comprehension [l for ls in actual_layers.values() for l in ls] -- after the filter call
+    lr = [x for x in fn.walk() if is_call(x, 'LayerRenderer') and x.args]
+    rname = lr[0].args[0].id if lr and isinstance(lr[0].args[0], ast.Name) else 'render_layers'
+    ex = [x for x in fn.walk() if is_call(x, rname + '.extend')]
+    ok1 = bool(ex) and all(enclosing(x, ast.For) is not None and same(enclosing(x, ast.For).iter, 'actual_layers.values()') for x in ex)
+    vals = [v for v, sel in defs.of(rname) if not (isinstance(v, ast.List) and not v.elts)]
+    ok2 = bool(vals) and not ex and all(
+        isinstance(c, ast.ListComp) and len(c.generators) == 2 and not any(gn.ifs for gn in c.generators) and
+        same(c.generators[0].iter, 'actual_layers.values()') and isinstance(c.generators[0].target, ast.Name) and
+        isinstance(c.generators[1].iter, ast.Name) and c.generators[1].iter.id == c.generators[0].target.id and
+        isinstance(c.generators[1].target, ast.Name) and isinstance(c.elt, ast.Name) and c.elt.id == c.generators[1].target.id
+        for c in vals)
+    ok = (ok1 and not vals) or ok2
+    g = fn.cfg
+    fan = [g.node_for(x) for x in fa]
+    src = [g.node_for(x) for x in ex] + [g.node_for(c) for c in vals]
+    ok = ok and bool(fan) and all(any(g.dominates(f_, n) and f_ != n for f_ in fan) for n in src)
     ctx.check(ok, 'WMSServer.map:renders-filtered-layers', 'the layers handed to the renderer are taken from the filtered actual_layers', fn)
     for qn, auth in ((WMS + ':WMSServer.featureinfo', 'self.authorized_layers'), (WMTS + ':WMTSServer.featureinfo', 'self.authorize_tile_layer')):
         fn = ctx.fn(qn)
@@ -462,8 +477,14 @@ def c10e(ctx):
                 return 'empty' if is_call(node.value, 'self.empty_response') else 'return'
             return type(node).__name__
 
+        # the mask flag: the plain name under whose truth the mask is applied (whatever it is called)
+        masks = g.find(lambda x: is_call(x, 'mask_image_source_from_coverage'))
+        flags = sorted({unparse(at.expr) for mn, _ in masks for at, pol in g.guards_of(mn) if pol is True and at.op is None and isinstance(at.expr, ast.Name)
+                        and at.expr.id != 'coverage' and any(isinstance(v, ast.Constant) and isinstance(v.value, bool) for v, sel in defs.of(at.expr.id))})
+        FLAG = flags[0] if len(flags) == 1 else 'coverage_intersects'
+
         def ev(st):
-            if isinstance(st, ast.Assign) and unparse(st.targets[0]) == 'coverage_intersects':
+            if isinstance(st, ast.Assign) and unparse(st.targets[0]) == FLAG:
                 return 'flag=%s' % unparse(st.value)
             return None
         tab = ctx.rows(table(cov_if[0].body, cls, event_of=ev))
@@ -490,17 +511,21 @@ def c10e(ctx):
         ok = bool(loads) and all(g.dominates(g.node_of[id(cov_if[0])], n) for n, x in loads)
         ctx.check(ok, 'TileLayer.%s:limit-before-load' % m, 'the limit is evaluated before the tile is loaded', fn)
         flag_rets = [r for r in g.find_stmts(lambda s: isinstance(s, ast.Return) and is_call(s.value, 'TileResponse'))
-                     if g.guarded(r, lambda at: at.op is None and same(at.expr, 'coverage_intersects'), True)]
-        masks = g.find(lambda x: is_call(x, 'mask_image_source_from_coverage'))
+                     if g.guarded(r, lambda at: at.op is None and same(at.expr, FLAG), True)]
+        # (the bbox handed to the mask: a local, judged below by what it can hold)
+        BBOX = unparse(masks[0][1].args[1]) if masks and len(masks[0][1].args) > 1 and isinstance(masks[0][1].args[1], ast.Name) else 'tile_bbox'
         ok = len(flag_rets) == 1 and len(masks) == 1 and g.dominates(masks[0][0], flag_rets[0]) and \
-            same_args(masks[0][1].args[:4], ['tile.source', 'tile_bbox', 'self.grid.srs', 'coverage'])
+            same_args(masks[0][1].args[:4], ['tile.source', BBOX, 'self.grid.srs', 'coverage'])
         ctx.check(ok, 'TileLayer.%s:mask-on-flag' % m, 'on the flag edge the tile is masked with the limit and the same tile_bbox before it is returned', fn,
                   fail='an only-intersecting tile is returned without mask_image_source_from_coverage(tile.source, tile_bbox, srs, coverage, ...)')
         plain = [r for r in g.find_stmts(lambda s: isinstance(s, ast.Return) and is_call(s.value, 'TileResponse')) if r not in flag_rets]
-        ok = bool(plain) and all(g.guarded(r, lambda at: at.op is None and same(at.expr, 'coverage_intersects'), False) for r in plain)
+        ok = bool(plain) and all(g.guarded(r, lambda at: at.op is None and same(at.expr, FLAG), False) for r in plain)
         ctx.check(ok, 'TileLayer.%s:unmasked-only-without-flag' % m, 'the unmasked response is returned only when the flag is not set', fn)
-        init = [v for v, sel in defs.of('coverage_intersects')]
-        tb = [v for v, sel in defs.of('tile_bbox')]
+        tb = [v for v, sel in defs.of(BBOX)]
+        # the rectangle the limit was compared with is the one the mask is placed with
+        cmp_args = [x.args[0] for x in fn.walk() if isinstance(x, ast.Call) and isinstance(x.func, ast.Attribute) and x.func.attr in ('contains', 'intersects') and
+                    same(x.func.value, 'coverage') and x.args]
+        tb += [v for a in cmp_args if isinstance(a, ast.Name) and a.id != BBOX for v, sel in defs.of(a.id)]
 
         def served_bbox(v):
             for depth in (0, 1, 2, 3):       # the value itself, or the local it was first held in
@@ -618,9 +643,21 @@ def c10i(ctx):
     fn = ctx.fn('mapproxy/util/coverage.py:GeomCoverage._geom_in_coverage_srs')
     gp = fn.params[1]
 
+    fdefs = Defs(fn.node)
+    TR = ('transform_geometry', 'transform_to', 'transform_bbox_to')
+
+    def is_transform(x):
+        if is_call(x, *TR):
+            return True
+        # the method picked into a local first (`t = srs.transform_to if .. else srs.transform_bbox_to; t(self.srs, geom)`)
+        if isinstance(x, ast.Call) and isinstance(x.func, ast.Name):
+            ds = fdefs.of(x.func.id)
+            return bool(ds) and all(sel is None and (isinstance(v, ast.Attribute) and v.attr in TR or isinstance(v, ast.Name) and v.id in TR)
+                                    for v, sel in ds)
+        return False
+
     def ev(st):
-        if isinstance(st, (ast.Assign, ast.Return)) and contains(st, lambda x: is_call(x, 'transform_geometry', 'transform_to', 'transform_bbox_to') and
-                                                                 any(unparse(a) == gp for a in x.args)):
+        if isinstance(st, (ast.Assign, ast.Return)) and contains(st, lambda x: is_transform(x) and any(unparse(a) == gp for a in x.args)):
             return 'transform'
         return None
     tab = ctx.rows(_table(fn.node.body, ret_kind, event_of=ev))
